@@ -86,7 +86,8 @@ def write_csv(path, header, rows, fmt=fmt_time, bom=False, crlf=False, time_styl
     with open(path, "w", encoding="utf-8-sig" if bom else "utf-8", newline="\r\n" if crlf else "\n") as fh:
         fh.write("datetime,%s\n" % header)
         for t, v in rows:
-            fh.write("%s,%s\n" % (restyle(fmt(t), time_style), v))
+            # (a row given as (None, value) or (text, value) is written as it is: rows without / with a malformed timestamp)
+            fh.write("%s,%s\n" % ("" if t is None else (t if isinstance(t, str) else restyle(fmt(t), time_style)), v))
 
 
 def write_dataset(ctx_dir, name, rain, et, level, fmt=fmt_time):
